@@ -26,6 +26,8 @@ SCHEMAS = {
     "Count": {"type": "integer"},
     "MaybeItem": {"allOf": [R("Item")], "nullable": True},
     "Err": {"type": "object", "properties": {"message": {"type": "string"}}},
+    "MaybeOpt": {"type": "object", "nullable": True, "properties": {"c": {"type": "boolean"}}},   # {} conforms and is not null
+    "MaybeItemList": {"type": "array", "nullable": True, "items": R("Item")},                    # [] conforms and is not null
 }
 
 ITEM_BODIES = [{"id": 1}, {"id": 2, "displayName": "n", "createdAt": "2020-01-02T03:04:05+00:00", "tags": ["a", "b"]}]
@@ -128,6 +130,13 @@ RESP_KINDS = {
     "alias-array": (_j(R("ItemList")), [_jb(ITEM_BODIES)]),
     "alias-scalar": (_j(R("Count")), [_jb(7)]),
     "nullable-model": (_j(R("MaybeItem")), [_jb(ITEM_BODIES[0]), _jb(None)]),
+    "nullable-opt-model": (_j(R("MaybeOpt")), [_jb({"c": True}), _jb({}), _jb(None)]),
+    "nullable-alias-array": (_j(R("MaybeItemList")), [_jb(ITEM_BODIES), _jb([]), _jb(None)]),
+    # unnamed arrays of unnamed objects: two different ones in one document must not share an item class
+    "json-array-inline-a": (_j({"type": "array", "items": {"type": "object", "required": ["p"], "properties": {"p": {"type": "string"}}}}), [_jb([{"p": "x"}]), _jb([])]),
+    "json-array-inline-b": (_j({"type": "array", "items": {"type": "object", "required": ["q"], "properties": {"q": {"type": "integer"}, "r": {"type": "string"}}}}),
+                            [_jb([{"q": 1, "r": "y"}, {"q": 2}])]),
+    "json-inline-object": (_j(INLINE_OBJ), [_jb({"a": "x", "n": 3}), _jb({})]),
     "union2": (_j(UNION2), [_jb(ITEM_BODIES[1]), _jb(OTHER_BODIES[0])]),
     "union3": (_j(UNION3), [_jb(ITEM_BODIES[0]), _jb(OTHER_BODIES[1]), _jb(THIRD_BODIES[0])]),
     "text-plain": ({"text/plain": {"schema": {"type": "string"}}}, [("text/plain; charset=utf-8", "héllo".encode(), "héllo")]),
